@@ -106,3 +106,306 @@ pub unsafe extern "C" fn clock_gettime(clk: clockid_t, tp: *mut timespec) -> c_i
         }
     }
 }
+
+// ------------------------------------------------------------------ SIM seam
+//
+// When a thread installs a `SimHooks` object, every call the *subject* (sozu)
+// makes to the functions below is routed to it. Calls made while the harness
+// itself is executing (`in_env`) are passed straight to libc.
+
+use std::cell::RefCell;
+
+/// What the simulation decides for one subject syscall.
+pub enum IoDecision {
+    /// perform the real call with (at most) this many bytes
+    Pass(usize),
+    /// fail with EAGAIN without touching the kernel
+    WouldBlock,
+}
+
+pub trait SimHooks {
+    /// subject called epoll_wait: run the environment, return the events to
+    /// hand back (already written into `events`, at most `max`)
+    fn epoll_wait(&mut self, epfd: c_int, events: *mut libc::epoll_event, max: c_int, timeout_ms: c_int) -> c_int;
+    fn epoll_ctl(&mut self, epfd: c_int, op: c_int, fd: c_int, event: *mut libc::epoll_event, result: c_int);
+    /// subject is about to read up to `len` bytes from `fd`
+    fn on_read(&mut self, fd: c_int, len: usize) -> IoDecision;
+    fn after_read(&mut self, fd: c_int, requested: usize, allowed: usize, result: isize);
+    fn on_write(&mut self, fd: c_int, len: usize) -> IoDecision;
+    fn after_write(&mut self, fd: c_int, requested: usize, allowed: usize, result: isize);
+    fn on_close(&mut self, fd: c_int);
+    fn on_accept(&mut self, listener: c_int, result: c_int);
+    fn on_connect(&mut self, fd: c_int, result: c_int);
+    /// kill(pid, sig) from the subject: never reaches the kernel
+    fn on_kill(&mut self, pid: libc::pid_t, sig: c_int) -> c_int;
+    /// bytes for getrandom(): deterministic per execution
+    fn random(&mut self, buf: &mut [u8]);
+}
+
+thread_local! {
+    static HOOKS: RefCell<Option<Box<dyn SimHooks>>> = const { RefCell::new(None) };
+    static IN_ENV: Cell<bool> = const { Cell::new(false) };
+    static SIM_ON: Cell<bool> = const { Cell::new(false) };
+}
+
+pub fn install_hooks(h: Box<dyn SimHooks>) {
+    HOOKS.with(|c| *c.borrow_mut() = Some(h));
+    SIM_ON.with(|c| c.set(true));
+}
+pub fn remove_hooks() -> Option<Box<dyn SimHooks>> {
+    SIM_ON.with(|c| c.set(false));
+    HOOKS.with(|c| c.borrow_mut().take())
+}
+/// Run harness code (the environment) with interposition switched off.
+pub fn in_env<R>(f: impl FnOnce() -> R) -> R {
+    let prev = IN_ENV.with(|c| c.replace(true));
+    let r = f();
+    IN_ENV.with(|c| c.set(prev));
+    r
+}
+#[inline]
+fn subject_call() -> bool {
+    SIM_ON.try_with(|c| c.get()).unwrap_or(false) && !IN_ENV.try_with(|c| c.get()).unwrap_or(true)
+}
+fn with_hooks<R>(f: impl FnOnce(&mut dyn SimHooks) -> R) -> R {
+    // harness code reached through the hooks runs "in the environment"
+    let prev = IN_ENV.with(|c| c.replace(true));
+    let r = HOOKS.with(|c| {
+        let mut g = c.borrow_mut();
+        let h = g.as_mut().expect("SIM_ON without hooks");
+        f(h.as_mut())
+    });
+    IN_ENV.with(|c| c.set(prev));
+    r
+}
+
+fn set_errno(e: c_int) {
+    unsafe { *libc::__errno_location() = e };
+}
+
+macro_rules! real_fn {
+    ($slot:ident, $name:literal, $ty:ty) => {{
+        static $slot: AtomicUsize = AtomicUsize::new(0);
+        let f: $ty = unsafe { std::mem::transmute(real($name, &$slot)) };
+        f
+    }};
+}
+
+pub mod sys {
+    //! direct access to the real libc functions (for harness code that must
+    //! never be intercepted even when called outside `in_env`)
+    use super::*;
+    pub unsafe fn epoll_wait(epfd: c_int, ev: *mut libc::epoll_event, max: c_int, to: c_int) -> c_int {
+        let f = real_fn!(S, c"epoll_wait", unsafe extern "C" fn(c_int, *mut libc::epoll_event, c_int, c_int) -> c_int);
+        unsafe { f(epfd, ev, max, to) }
+    }
+}
+
+#[unsafe(no_mangle)]
+pub unsafe extern "C" fn epoll_wait(epfd: c_int, events: *mut libc::epoll_event, max: c_int, timeout: c_int) -> c_int {
+    if !subject_call() {
+        return unsafe { sys::epoll_wait(epfd, events, max, timeout) };
+    }
+    with_hooks(|h| h.epoll_wait(epfd, events, max, timeout))
+}
+
+#[unsafe(no_mangle)]
+pub unsafe extern "C" fn epoll_pwait(epfd: c_int, events: *mut libc::epoll_event, max: c_int, timeout: c_int, sigmask: *const libc::sigset_t) -> c_int {
+    if !subject_call() {
+        let f = real_fn!(S, c"epoll_pwait", unsafe extern "C" fn(c_int, *mut libc::epoll_event, c_int, c_int, *const libc::sigset_t) -> c_int);
+        return unsafe { f(epfd, events, max, timeout, sigmask) };
+    }
+    with_hooks(|h| h.epoll_wait(epfd, events, max, timeout))
+}
+
+#[unsafe(no_mangle)]
+pub unsafe extern "C" fn epoll_ctl(epfd: c_int, op: c_int, fd: c_int, event: *mut libc::epoll_event) -> c_int {
+    let f = real_fn!(S, c"epoll_ctl", unsafe extern "C" fn(c_int, c_int, c_int, *mut libc::epoll_event) -> c_int);
+    let r = unsafe { f(epfd, op, fd, event) };
+    if subject_call() {
+        let e = unsafe { *libc::__errno_location() };
+        with_hooks(|h| h.epoll_ctl(epfd, op, fd, event, r));
+        set_errno(e);
+    }
+    r
+}
+
+unsafe fn do_read(fd: c_int, len: usize, call: &mut dyn FnMut(usize) -> isize) -> isize {
+    if !subject_call() {
+        return call(len);
+    }
+    match with_hooks(|h| h.on_read(fd, len)) {
+        IoDecision::WouldBlock => {
+            with_hooks(|h| h.after_read(fd, len, 0, -1));
+            set_errno(libc::EAGAIN);
+            -1
+        }
+        IoDecision::Pass(n) => {
+            let r = call(n.min(len));
+            let e = unsafe { *libc::__errno_location() };
+            with_hooks(|h| h.after_read(fd, len, n.min(len), r));
+            set_errno(e);
+            r
+        }
+    }
+}
+
+unsafe fn do_write(fd: c_int, len: usize, call: &mut dyn FnMut(usize) -> isize) -> isize {
+    if !subject_call() {
+        return call(len);
+    }
+    match with_hooks(|h| h.on_write(fd, len)) {
+        IoDecision::WouldBlock => {
+            with_hooks(|h| h.after_write(fd, len, 0, -1));
+            set_errno(libc::EAGAIN);
+            -1
+        }
+        IoDecision::Pass(n) => {
+            let r = call(n.min(len));
+            let e = unsafe { *libc::__errno_location() };
+            with_hooks(|h| h.after_write(fd, len, n.min(len), r));
+            set_errno(e);
+            r
+        }
+    }
+}
+
+#[unsafe(no_mangle)]
+pub unsafe extern "C" fn read(fd: c_int, buf: *mut c_void, count: usize) -> isize {
+    let f = real_fn!(S, c"read", unsafe extern "C" fn(c_int, *mut c_void, usize) -> isize);
+    unsafe { do_read(fd, count, &mut |n| f(fd, buf, n)) }
+}
+
+#[unsafe(no_mangle)]
+pub unsafe extern "C" fn recv(fd: c_int, buf: *mut c_void, len: usize, flags: c_int) -> isize {
+    let f = real_fn!(S, c"recv", unsafe extern "C" fn(c_int, *mut c_void, usize, c_int) -> isize);
+    if flags & libc::MSG_PEEK != 0 {
+        return unsafe { f(fd, buf, len, flags) };
+    }
+    unsafe { do_read(fd, len, &mut |n| f(fd, buf, n, flags)) }
+}
+
+#[unsafe(no_mangle)]
+pub unsafe extern "C" fn write(fd: c_int, buf: *const c_void, count: usize) -> isize {
+    let f = real_fn!(S, c"write", unsafe extern "C" fn(c_int, *const c_void, usize) -> isize);
+    if fd <= 2 {
+        return unsafe { f(fd, buf, count) };
+    }
+    unsafe { do_write(fd, count, &mut |n| f(fd, buf, n)) }
+}
+
+#[unsafe(no_mangle)]
+pub unsafe extern "C" fn send(fd: c_int, buf: *const c_void, len: usize, flags: c_int) -> isize {
+    let f = real_fn!(S, c"send", unsafe extern "C" fn(c_int, *const c_void, usize, c_int) -> isize);
+    unsafe { do_write(fd, len, &mut |n| f(fd, buf, n, flags)) }
+}
+
+#[unsafe(no_mangle)]
+pub unsafe extern "C" fn writev(fd: c_int, iov: *const libc::iovec, iovcnt: c_int) -> isize {
+    let f = real_fn!(S, c"writev", unsafe extern "C" fn(c_int, *const libc::iovec, c_int) -> isize);
+    if !subject_call() || iovcnt <= 0 {
+        return unsafe { f(fd, iov, iovcnt) };
+    }
+    let vecs = unsafe { std::slice::from_raw_parts(iov, iovcnt as usize) };
+    let total: usize = vecs.iter().map(|v| v.iov_len).sum();
+    unsafe {
+        do_write(fd, total, &mut |n| {
+            if n >= total {
+                return f(fd, iov, iovcnt);
+            }
+            // truncated vector write: rebuild an iovec array covering n bytes
+            let mut left = n;
+            let mut cut: Vec<libc::iovec> = vec![];
+            for v in vecs {
+                if left == 0 {
+                    break;
+                }
+                let take = v.iov_len.min(left);
+                cut.push(libc::iovec { iov_base: v.iov_base, iov_len: take });
+                left -= take;
+            }
+            f(fd, cut.as_ptr(), cut.len() as c_int)
+        })
+    }
+}
+
+#[unsafe(no_mangle)]
+pub unsafe extern "C" fn readv(fd: c_int, iov: *const libc::iovec, iovcnt: c_int) -> isize {
+    let f = real_fn!(S, c"readv", unsafe extern "C" fn(c_int, *const libc::iovec, c_int) -> isize);
+    if !subject_call() || iovcnt <= 0 {
+        return unsafe { f(fd, iov, iovcnt) };
+    }
+    let vecs = unsafe { std::slice::from_raw_parts(iov, iovcnt as usize) };
+    let total: usize = vecs.iter().map(|v| v.iov_len).sum();
+    unsafe {
+        do_read(fd, total, &mut |n| {
+            if n >= total {
+                return f(fd, iov, iovcnt);
+            }
+            let mut left = n;
+            let mut cut: Vec<libc::iovec> = vec![];
+            for v in vecs {
+                if left == 0 {
+                    break;
+                }
+                let take = v.iov_len.min(left);
+                cut.push(libc::iovec { iov_base: v.iov_base, iov_len: take });
+                left -= take;
+            }
+            f(fd, cut.as_ptr(), cut.len() as c_int)
+        })
+    }
+}
+
+#[unsafe(no_mangle)]
+pub unsafe extern "C" fn close(fd: c_int) -> c_int {
+    let f = real_fn!(S, c"close", unsafe extern "C" fn(c_int) -> c_int);
+    if subject_call() {
+        with_hooks(|h| h.on_close(fd));
+    }
+    unsafe { f(fd) }
+}
+
+#[unsafe(no_mangle)]
+pub unsafe extern "C" fn accept4(fd: c_int, addr: *mut libc::sockaddr, len: *mut libc::socklen_t, flags: c_int) -> c_int {
+    let f = real_fn!(S, c"accept4", unsafe extern "C" fn(c_int, *mut libc::sockaddr, *mut libc::socklen_t, c_int) -> c_int);
+    let r = unsafe { f(fd, addr, len, flags) };
+    if subject_call() {
+        let e = unsafe { *libc::__errno_location() };
+        with_hooks(|h| h.on_accept(fd, r));
+        set_errno(e);
+    }
+    r
+}
+
+#[unsafe(no_mangle)]
+pub unsafe extern "C" fn connect(fd: c_int, addr: *const libc::sockaddr, len: libc::socklen_t) -> c_int {
+    let f = real_fn!(S, c"connect", unsafe extern "C" fn(c_int, *const libc::sockaddr, libc::socklen_t) -> c_int);
+    let r = unsafe { f(fd, addr, len) };
+    if subject_call() {
+        let e = unsafe { *libc::__errno_location() };
+        with_hooks(|h| h.on_connect(fd, r));
+        set_errno(e);
+    }
+    r
+}
+
+#[unsafe(no_mangle)]
+pub unsafe extern "C" fn kill(pid: libc::pid_t, sig: c_int) -> c_int {
+    if subject_call() {
+        return with_hooks(|h| h.on_kill(pid, sig));
+    }
+    let f = real_fn!(S, c"kill", unsafe extern "C" fn(libc::pid_t, c_int) -> c_int);
+    unsafe { f(pid, sig) }
+}
+
+#[unsafe(no_mangle)]
+pub unsafe extern "C" fn getrandom(buf: *mut c_void, len: usize, flags: libc::c_uint) -> isize {
+    if subject_call() && !buf.is_null() {
+        let s = unsafe { std::slice::from_raw_parts_mut(buf as *mut u8, len) };
+        with_hooks(|h| h.random(s));
+        return len as isize;
+    }
+    let f = real_fn!(S, c"getrandom", unsafe extern "C" fn(*mut c_void, usize, libc::c_uint) -> isize);
+    unsafe { f(buf, len, flags) }
+}
